@@ -1,3 +1,4 @@
 import Proofs.C05
 import Proofs.C17
 import Proofs.C18
+import Proofs.C20
